@@ -4,7 +4,7 @@ CONSTANTS
   BigN = 60
   MaxN = 2
   Filters = {"none", "flate"}
-  HdrSeps = {"sp", "nl"}
+  HdrSeps = {"sp", "nl", "tight"}
   LenStores = {"direct", "raw", "cmp"}
   Dev = {}
 INIT Init
